@@ -206,7 +206,8 @@ rule("AnonRoutine", ["'procedure' OptParams @A 'begin' @{ StmtList @C 'end' @} @
 
 # ------------------------------------------------------------------ lexical pools
 rule("Ident", ["'A'", "'B'", "'I'", "'Foo'", "'Bar'", "'Baz'", "'Value'", "'Index'", "'Count'", "'Items'", "'FList'", "'AVeryLongIdentifierName'",
-               "'AnotherQuiteLongName'", "'Größe'", "'X1'", "'_Tmp'", "'&begin'", "'Name'", "'Message'", "'ReadOnly'", "'Platform'", "'Default'", "'Stored'", "'Local'"], ["'A'", "'Foo'"], ident=True)
+               "'AnotherQuiteLongName'", "'Größe'", "'X1'", "'_Tmp'", "'&begin'", "'Name'", "'Message'", "'ReadOnly'", "'Platform'", "'Stored'", "'Local'"], ["'A'", "'Foo'"], ident=True)
+# (`Default` is not in the pool: a member named Default directly after a property declaration IS the `default;` directive)
 rule("TypeIdent", ["'TFoo'", "'TBar'", "'TList'", "'TDictionary'", "'IFoo'", "'TMyVeryLongClassName'"], ["'TFoo'"], ident=True)
 rule("TypeName", ["'Integer'", "'Boolean'", "'TFoo'", "'TObject'", "'Byte'", "'Double'", "'PChar'", "'System' '.' 'TObject'", "'Platform'", "'Deprecated'", "'Experimental'"], ["'Integer'"], ident=True)
 rule("Number", ["'0'", "'1'", "'42'", "'100000'", "'3.14'", "'1e5'", "'$FF'", "'%1010'", "'1_000'"], ["'1'"])
